@@ -325,6 +325,12 @@ class _AttrBase(Prop):
                     t.add_class(H.HTML("zz"))
                     t.has_class("zz"); t.has_class(x); t.has_class("nope")
                     return t.get_html_string().replace(' zz"', '"', 1)
+                elif way == "class_padded_merge_html_then_has":
+                    # (a value with irregular white space stays exactly as it is when it is only LOOKED at)
+                    t = H.tags.div(class_="lead\t " + x + "  pad")
+                    t.add_class(H.HTML("zz"))
+                    t.has_class("zz"); t.has_class("pad"); t.has_class("nope")
+                    return t.get_html_string()
                 elif way == "from_attrs_plus_kw":
                     # a new tag from another tag's attribute map plus a keyword for the same name
                     a_ = H.tags.div(class_=H.HTML("btn"))
@@ -407,7 +413,7 @@ class C03(_AttrBase):
         for b in blocks:
             gens.append({"kind": "cprange", "lo": b * step, "hi": b * step + step - 1, "path": "attr"})
         ways = ["kw", "dict", "setitem", "update", "void", "mid", "class_then_remove_other", "class_then_remove_absent",
-                "class_merge_html_then_remove", "class_merge_html_then_has", "from_attrs_plus_kw", "from_attrs_dict_plus_kw",
+                "class_merge_html_then_remove", "class_merge_html_then_has", "class_padded_merge_html_then_has", "from_attrs_plus_kw", "from_attrs_dict_plus_kw",
                 "doc_html_class", "doc_html_style", "doc_kw"]
         tokens = ["a&b", 'x"y', "it's", "<b>", "p>q", "&amp;", "é&", 'a"b\'c<d>e&f']
         for s in gamma.HOSTILE + tokens:
